@@ -1,6 +1,7 @@
-From Capy Require Import Common.Util Model.Switch Spec.SwitchSpec.
+From Capy Require Import Common.Util Model.Switch Model.SwitchFixed Spec.SwitchSpec.
 Require Extraction.
 Require Import ExtrOcamlBasic.
 Extraction Language OCaml.
 Separate Extraction assign_discriminants dup_manuals check_switch accepted compile_switch dispatch
-  namesb accepted_specb arm_for spec_outcome expected_bind known_check_class known_codegen_class variants_of is_tagged.
+  namesb accepted_specb arm_for spec_outcome expected_bind known_check_class known_codegen_class variants_of is_tagged
+  assign_discriminants_fx check_switch_fx compile_switch_fx dispatch_fx known_check_class_fx known_codegen_class_fx.
